@@ -29,7 +29,8 @@ RULE = ("(1) deterministic prime/branch-A/branch-B scenario for every builder-de
         "ordered pair (A, B) of ~20-60 continuations that share one tiny vocabulary (alias x, tables t1..t3, index i1, CTE c1): "
         "r=prime; x=A(r); y=B(r) (and the chain y=B(x); z=B(r)); each object must equal the rebuild of its own sub-program, "
         "including whether the call raises (quick: each pair under one dialect class, rotating with the seed; thorough: all six). A program is "
-        "non-trivial when at least one receiver got two or more continuations; distinct = distinct program hash")
+        "non-trivial when at least one receiver got two or more continuations; distinct = distinct program hash"
+        " also: named-argument monitor (10 kinds of already named row sources x 14 consuming calls), a set-operation family and a retry-after-rejected-on() action in the sibling matrix, as_/replace_table/negate/slices on every zoo class. (DESIGN.md 6a)")
 ASSUMPTIONS = [
     "effects invisible to every render under the six contexts and to alias/is_aggregate/tables/fields are not observed",
     "auto-alias side effects (sq<n>, <table>2) are exercised only by the dedicated exemption scenarios",
